@@ -4,7 +4,7 @@ import vlib
 import seqxrun
 
 PROP = "C16"
-B = {"quick": dict(depth=6, nodedup=3, rtok=3, rlen=3), "thorough": dict(depth=10, nodedup=4, rtok=4, rlen=3)}
+B = {"quick": dict(depth=6, nodedup=3, rtok=3, rlen=3, rotok=3), "thorough": dict(depth=10, nodedup=4, rtok=4, rlen=3, rotok=4)}
 NSH = 16
 
 
@@ -43,7 +43,8 @@ def run(tier):
     exe = seqxrun.build("c16", ["c16.cpp"])
     rxfile = os.path.join(vlib.BUILD, "c16-regex-%s.tsv" % tier)
     args = [["--depth", b["depth"], "--nodedup-depth", b["nodedup"], "--shard", i, "--nshards", NSH] +
-            (["--regex-out", rxfile, "--regex-tokens", b["rtok"], "--regex-len", b["rlen"]] if i == 0 else ["--depth", 0])
+            (["--regex-out", rxfile, "--regex-tokens", b["rtok"], "--regex-len", b["rlen"]] if i == 0 else ["--depth", 0]) +
+            (["--regex-options-tokens", b["rotok"]] if i == 1 else []) + (["--long-runs", 1] if i == 2 else [])
             for i in range(NSH)]
     parts = seqxrun.run_shards(exe, args, timeout=3000)
     fails = [p for p in parts if "_crash" in p or "_timeout" in p]
@@ -55,7 +56,10 @@ def run(tier):
         PROP, tier, "model_checking", tot, t,
         rule="BFS over message sequences (9 texts incl. null/empty/case/whitespace/NFC-NFD and a pair with equal length and equal polynomial hash x 5 types x 2 pipelines sharing one DuplicateFilter and one SeqNumberAttr) "
              "with canonical state read by probing copies of the handlers; all 25 threshold x type pairs of LevelFilter on every message; plus plain enumeration "
-             "without state merging to a smaller depth; plus RegExpFilter verdicts for every expression <= K tokens x every text <= 3 over {a,b,LF} against Python re",
+             "without state merging to a smaller depth; plus RegExpFilter verdicts for every expression <= K tokens x every text <= 3 over {a,b,LF} against Python re; "
+             "plus expressions handed over as QRegularExpression objects: every pattern <= J tokens over {a B blank # . $ ^ LF b* (a) \\1 \\w} x 11 pattern-option sets (case-insensitive, dot-all, multiline, "
+             "extended syntax, inverted greediness, no-capture, Unicode properties, three pairs) x 262 texts, oracle: that very expression object applied to the message text; "
+             "plus long runs: 254..257, 65534..65538 and 131073 identical messages (and 65538 empty ones from the start) through one DuplicateFilter and one SeqNumberAttr",
         assumptions=["PCRE and Python re agree on the enumerated regex grammar; expressions either engine rejects are excluded (counted)",
                      "a null QString and an empty QString are the same text"],
         engine_failures=fails,
